@@ -85,7 +85,7 @@ class Ref:
         self.root, self.projs = root, tuple(projs)
 
     def __repr__(self):
-        return "&%s%s" % (self.root, "".join("." + str(p[1]) if p[0] == "field" else "@" + str(p[1]) for p in self.projs))
+        return "&%s%s" % (self.root, "".join(("." + str(p[1]) if p[0] == "field" else "@" + str(p[1])) if len(p) > 1 else "." + str(p[0]) for p in self.projs))
 
 
 class SymEnum:
@@ -552,6 +552,8 @@ class Exec:
             return self.const(o[6:].strip(), st)
         if re.match(r"^[A-Za-z_][\w]*(::[\w<>{}#, ]+)+$", o) and not o.startswith("_"):
             return Opaque("fn " + o[:60]), None       # a function item / constructor passed by name
+        if re.match(r"^[A-Za-z][\w]*$", o) and o not in ("true", "false"):
+            return Opaque("fn " + o[:60]), None       # a crate-local function item passed by its bare name
         return self.read(st, o), self.place_type(o, st)
 
     def const(self, c, st=None):
@@ -1487,6 +1489,21 @@ def m_to_le_bytes(ex, st, a, dst, callee):
     return [(PyVec([z3.Extract(8 * i + 7, 8 * i, v) for i in range(v.size() // 8)]), [], None)]
 
 
+def m_to_be_bytes(ex, st, a, dst, callee):
+    v = _dv(ex, st, a[0])
+    if not isinstance(v, z3.BitVecRef):
+        return None
+    n = v.size() // 8
+    return [(PyVec([z3.Extract(8 * (n - 1 - i) + 7, 8 * (n - 1 - i), v) for i in range(n)]), [], None)]
+
+
+def m_from_be_bytes(ex, st, a, dst, callee):
+    v = _dv(ex, st, a[0])
+    if not isinstance(v, PyVec) or not all(isinstance(x, z3.BitVecRef) and x.size() == 8 for x in v.items):
+        return None
+    return [(z3.Concat(list(v.items)) if len(v.items) > 1 else v.items[0], [], None)]
+
+
 def m_from_le_bytes(ex, st, a, dst, callee):
     v = _dv(ex, st, a[0])
     if not isinstance(v, PyVec) or not all(isinstance(x, z3.BitVecRef) and x.size() == 8 for x in v.items):
@@ -1581,10 +1598,24 @@ def m_int_minmax(ex, st, a, dst, callee):
     return [(z3.If(lt, a[0], a[1]) if lo else z3.If(lt, a[1], a[0]), [], None)]
 
 
+def m_ref_int_eq(ex, st, a, dst, callee):
+    x, y = a[0], a[1]
+    for _ in range(3):
+        x = deref_val(ex, st, x) if isinstance(x, Ref) else x
+        y = deref_val(ex, st, y) if isinstance(y, Ref) else y
+    if not (z3.is_bv(x) and z3.is_bv(y)):
+        return None
+    c = (x == y) if callee.endswith("::eq") else (x != y)
+    return [(TRUE, [c], None), (FALSE, [z3.Not(c)], None)]
+
+
 STD_CMP_MODELS = [
+    (r"^<&+[ui](?:\d+|size) as PartialEq(?:<.*>)?>::(eq|ne)$", m_ref_int_eq),
     (r"^<[ui](?:\d+|size) as Ord>::(min|max)$", m_int_minmax),
     (r"<\w+ as Default>::default$", m_prim_default),
     (r"num::<impl [ui]\d+>::to_le_bytes$", m_to_le_bytes),
+    (r"num::<impl [ui]\d+>::to_be_bytes$", m_to_be_bytes),
+    (r"num::<impl [ui]\d+>::from_be_bytes$", m_from_be_bytes),
     (r"num::<impl [ui]\d+>::from_le_bytes$", m_from_le_bytes),
     (r"num::<impl \w+>::(overflowing|wrapping|checked|saturating)_(add|sub|mul|neg)$", m_int_arith),
     (r"num::<impl \w+>::(checked|wrapping)_(div|rem)$", m_int_div),
